@@ -27,6 +27,11 @@ CLAIMED = {
    note="Bounds: |P|,|P'|<=2 (3), markers<=2 (3), traits<=2; exact reals in the step; fp64: n<=64 (256), |u|<=1e150. The step covers histories of any length within the size bound; the closure assumption is C01's result.",
    technique="symbolic execution on z3-term arrays (inductive step, QF_NRA) + AST-to-z3-FloatingPoint translation of the frequency/comparator kernels, replay on real numpy",
    design="2/C10"),
+   "C18": dict(
+   text="Bounded symbolic model checking of the real haplotype-block code: nhaploblk_chrom, haplobin, haplobin_bounds, haplomat and the OHV problem's _calc_haplomat/_calc_xmap/_calc_ohvmat run on symbolic genetic positions (sorted within chromosome, ties and clusters reachable), symbolic genotypes and effects; z3 decides every comparison against the equal-width bounds, so each layout class is a path, and the partition, apportionment, conservation, every-cell-written (numpy.empty cells are marked) and OHV-definition assertions are discharged per path. The known defect (an empty equal-width bin gives fewer blocks than requested) is reported as KNOWN-FINDING from its witness and excluded by its exact class predicate only.",
+   note="Bounds: chromosome layouts up to (3,2) quick / (5),(3,3),(2,2,2) thorough, every admissible block total, taxa<=2 (3), traits 1 (2); exact reals. Replays poison numpy.empty with NaN so unwritten cells are observable.",
+   technique="symbolic execution on z3-term arrays (symnp) + z3 per-path obligations, replay on real numpy",
+   design="2/C18"),
 }
 NA = {}
 for pid in props:
